@@ -52,3 +52,17 @@ Theorem C09_reader_sees_globals : forall text srcfile globals symtab,
     /\ Forall (fun y => y_class y = 2 /\ y_naux y = 0) (skipn 4 (o_symbols o)).
 Proof. exact coff_read_global_names. Qed.
 Print Assumptions C09_reader_sees_globals.
+
+(* a [FILE] name longer than 18 bytes occupies further auxiliary records and is read back whole (fix in /repo; it used to be
+   cut to 18 bytes) *)
+Example C09_long_file_name :
+  let name := bytes_of_string "abcdefghijklmnopqrstuvwxyz.nas"%string in
+  let f := coff_write [195] name [] [] in
+  match coff_read f with
+  | Some o => match o_symbols o with
+              | f0 :: _ => take_until_nul (y_aux f0) = name /\ y_naux f0 = 2 /\ wellformed f o = true
+              | [] => False
+              end
+  | None => False
+  end.
+Proof. vm_compute. repeat split; reflexivity. Qed.
